@@ -399,7 +399,15 @@ fn main() {
             let mut n = 0usize;
             for rv in recs {
                 for r in rv {
-                    writeln!(w, "{}", serde_json::to_string(&r).unwrap()).unwrap();
+                    // the relations compare two runs; whether a refusal as "duplicate split entries" was itself
+                    // legitimate is judged on the segments (Trace_Ledger), where the status stays `dupsplit`
+                    let mut rp = r.clone();
+                    for k in ["a", "b"] {
+                        if rp[k]["status"] == "dupsplit" {
+                            rp[k]["status"] = serde_json::json!("skipped");
+                        }
+                    }
+                    writeln!(w, "{}", serde_json::to_string(&rp).unwrap()).unwrap();
                     // (a pair whose second half is a bare failure notice carries no ledger to validate)
                     if r["kind"] != "aggsum" && r["b"]["sec"] != "*" {
                         writeln!(ws, "{}", serde_json::to_string(&r["a"]).unwrap()).unwrap();
